@@ -74,7 +74,7 @@ package db
 // dprefix(key) ++ 20 digits (a longer key with the same prefix belongs to another user key, e.g.
 // "a.0" when reading "a"), at a version not above the one asked for.
 //@ func (*SimpleMVCC).GetV [C09]
-//@   opt safety=assumed overflow=assumed
+//@   opt safety=assumed overflow=assumed deadreturns=allowed
 //@   assert@call List: bytes(arg1) == dprefix(bytes(key)) && arg3 == 1 && arg4 == 2 && (version >= 0 ==> bytes(arg2) == dkey(bytes(key), version))
 //@   ensures result1 == nil ==> ret0(getVersion) <= version && ret1(getVersion) == nil
 //@   ensures result1 == nil ==> len(ret0(List)[0]) == len(key) + 31
@@ -146,12 +146,12 @@ package db
 
 // ---- C09: adding a version writes one versioned record per input record ---------------------------
 //@ func (*SimpleMVCC).GetSaveKV [C09]
-//@   opt overflow=assumed
+//@   opt overflow=assumed deadreturns=allowed
 //@   frame allocates
 //@   ensures result1 == nil && result0 != nil && result0.Value == value
 //@   ensures version >= 0 ==> bytes(result0.Key) == dkey(bytes(key), version)
 //@ func (*SimpleMVCC).GetDelKV [C09]
-//@   opt overflow=assumed
+//@   opt overflow=assumed deadreturns=allowed
 //@   frame allocates
 //@   ensures result1 == nil && result0 != nil && isnil(result0.Value)
 //@   ensures version >= 0 ==> bytes(result0.Key) == dkey(bytes(key), version)
@@ -165,7 +165,7 @@ package db
 // every input record - duplicates of a key included, in order, so that the last write wins when the
 // list is applied - produces its versioned record; plus the two version records and the key list
 //@ func (*SimpleMVCC).AddMVCC [C09]
-//@   opt safety=assumed overflow=assumed
+//@   opt safety=assumed overflow=assumed deadreturns=allowed
 //@   ensures result1 == nil ==> len(result0) == len(ret0(SetVersionKV)) + len(kvs) + 1
 //@   assert@call GetSaveKV: arg1 == kvs[i].Key && arg2 == kvs[i].Value && arg3 == version
 //@   loop 0 invariant 0 <= i && i <= len(kvs) && len(kvlist) == len(versionlist) + i
